@@ -7,8 +7,9 @@ use std::sync::{Arc, Mutex};
 
 #[derive(Clone, Debug, Default, PartialEq)]
 pub struct Faults {
-    /// (n, always): the n-th PUT (1-based) answers 500; always = every PUT from the n-th on
-    pub put_fail: Option<(u64, bool)>,
+    /// (n, count, status): PUT requests number n .. n+count-1 (1-based, SDK retries are requests too) answer `status`;
+    /// count = u64::MAX means every PUT from the n-th on
+    pub put_fail: Option<(u64, u64, u16)>,
     /// the n-th GET object answers 500 once
     pub get_fail: Option<u64>,
 }
@@ -67,10 +68,14 @@ impl Stub {
                     let n = p.fetch_add(1, Ordering::SeqCst) + 1;
                     let mut body = vec![];
                     let _ = rq.as_reader().read_to_end(&mut body);
-                    let inject = { f.lock().unwrap().put_fail.map(|(k, always)| n == k || (always && n >= k)).unwrap_or(false) };
-                    if inject {
+                    let inject = { f.lock().unwrap().put_fail.and_then(|(k, count, status)| if n >= k && n - k < count { Some(status) } else { None }) };
+                    if let Some(status) = inject {
                         fp.fetch_add(1, Ordering::SeqCst);
-                        let _ = rq.respond(fail500());
+                        if status == 409 {
+                            let _ = rq.respond(tiny_http::Response::from_string("<Error><Code>OperationAborted</Code><Message>injected</Message></Error>").with_status_code(409));
+                        } else {
+                            let _ = rq.respond(fail500());
+                        }
                         continue;
                     }
                     // body may be aws-chunked; nun-db sends plain bodies (verified by the self-test)
